@@ -1,4 +1,40 @@
-# Per-property run configuration, exec'd by ./check.  tier tuple = (shards, rapid checks per shard, timeout seconds)
+# Per-property run configuration and manifest texts, exec'd by ./check.
+# tier tuple = (shards, rapid checks per shard, timeout seconds)
+
+FRAME_GEN = ("frames generated version-valid by construction (gen.Frame: 43 message kinds x 6 versions, optional fields only where the "
+             "version's specification defines them, boundary-biased values, bodies up to ~256 KiB expanded from (class,seed,length) triples) "
+             "x compression allowed for the version")
+
+prop("C01", run="^TestC01$", level="exploration",
+     quick=(16, 2500, 900), thorough=(16, 60000, 7200),
+     rule=FRAME_GEN + "; oracle: encode, decode, canonical equality (nil==empty collections, IPv4 4/16 bytes), reader fully consumed, input not modified, "
+          "plus message-level Encode/Decode; non-trivial = frame has an optional body part/header flag or a message body > 8 bytes; distinct by canonical frame hash x compression",
+     assumptions=["equality is canon.Diff: strict except nil/empty collections, nil/empty [short bytes], IPv4 in 4 or 16 bytes, nil *QueryOptions = defaults",
+                  "documented preconditions are respected by the generator (page size >= 0, positional xor named values, non-empty ids/keyspaces)"],
+     text="Randomised exploration of the round-trip law over constructively generated version-valid frames, all versions, message kinds and compressors; finds symmetric-free encode/decode disagreements, not symmetric ones (C02 does that).",
+     note="Trusted: the generator's version gating (typed in from the specs) and canon's equality. Open finding DEP-lz4-offset-wrap-65536 is excluded on the exact bytes the compressor emitted.",
+     technique="property-based testing (rapid): round-trip oracle over constructive version-aware frame generators", design="DESIGN.md 4 C01")
+
+prop("C03", run="^TestC03", level="exploration",
+     quick=(16, 1200, 900), thorough=(16, 30000, 7200),
+     rule=FRAME_GEN + "; streams of 1..8 frames on one (version, compression) followed by sentinel bytes, decoded through a counting reader; every primitive LengthOf*/Write* pair on generated values; "
+          "vint boundary table (2^k-1,2^k,2^k+1, k=0..64, both signs); non-trivial = stream has >= 2 frames or a body-prefix part / primitive encoding > 2 bytes; distinct by stream bytes hash",
+     assumptions=["a frame's consumed length is measured with a counting reader around bytes.Reader"],
+     text="Randomised exploration of length agreement (header vs emitted, EncodedLength vs Encode, LengthOf* vs Write*) and of exact stream consumption over generated frame sequences.",
+     note="Trusted: gen.Frame version gating. Frames hit by the open LZ4 dependency finding are skipped (counted).",
+     technique="property-based testing (rapid): length/consumption invariants over generated frames, frame sequences and primitive values", design="DESIGN.md 4 C03")
+
+prop("C05", run="^TestC05", level="exploration",
+     quick=(16, 700, 900), thorough=(16, 15000, 7200),
+     rule=FRAME_GEN + " through the paths DecodeRawFrame+ConvertFromRawFrame, DecodeHeader+DecodeBody, DecodeHeader+DecodeRawBody, DecodeHeader+DiscardBody (seekable and not), "
+          "ConvertToRawFrame+EncodeRawFrame, EncodeBody+EncodeHeader, each compared with DecodeFrame and each required to stop exactly at a sentinel; re-encode clause on valid and mutated "
+          "(flag/opcode/version/bit-flip/byte-set/trailing-garbage) inputs that still decode; non-trivial = non-empty body (paths) / mutated input that differs from the encoder's output (re-encode); distinct by frame or input hash",
+     assumptions=["compressed body lengths of frames containing wire maps may differ between two encodings (map order is free); uncompressed lengths must agree",
+                  "an encode error on a mutated-but-decodable input is counted, not judged (the property presupposes the re-encode)"],
+     text="Metamorphic exploration: every partial path must agree with the full codec on generated frames, and decode-encode-decode must be stable on generated and mutated wire inputs.",
+     note="Trusted: canon equality. Panics during the first decode of a mutated input are C04's business and not judged here.",
+     technique="property-based testing (rapid): metamorphic relations between partial and full codec paths; byte-level mutation for the re-encode clause", design="DESIGN.md 4 C05")
+
 prop("C19", run="^TestC19", level="exploration",
      quick=(1, 20000, 300), thorough=(16, 200000, 1800),
      rule="every constant declared in primitive/constants.go (read from the working tree) plus full 8/16-bit domains, "
@@ -6,4 +42,18 @@ prop("C19", run="^TestC19", level="exploration",
           "spec capability table, all 256 version numbers; every case is non-trivial (each is one (type,value) or "
           "(predicate,version) obligation); distinct by (type,value) - enumerated sub-spaces are distinct by construction",
      assumptions=["capability table typed in from specs/*.spec (DESIGN.md Appendix A); '?' cells not asserted",
-                  "constants are read from primitive/constants.go with go/types; a constant type without a harness entry is reported in notes, not checked"])
+                  "constants are read from primitive/constants.go with go/types; a constant type without a harness entry is reported in notes, not checked"],
+     text="Exhaustive sweep of the 8/16-bit code domains (and all 2^32 values of the 32-bit code types in the thorough tier) against the constants read from the source, generated near-miss strings, and every asserted cell of the spec-derived capability table; exhaustive where the space is finite, sampled elsewhere.",
+     note="Trusted: the capability table typed in from specs/*.spec (Appendix A); go/types reading primitive/constants.go.",
+     technique="property-based testing: exhaustive domain enumeration + rapid-generated values against a declared-set oracle and a spec-derived table",
+     design="DESIGN.md 4 C19, Appendix A", exhaustive_claim=False)
+
+prop("C20", run="^TestC20", level="exploration",
+     quick=(8, 1500, 600), thorough=(16, 40000, 3600),
+     rule="rapid-generated sequences of 1..12 mutator calls (SetCustomPayload/SetWarnings/SetTracingId/RequestTracingId/SetCompress with nil, empty and non-empty arguments, restricted to what the method docs allow for direction and version) "
+          "on frames of every message kind and version, checked after every step against a presence model and by an encode/decode round trip; sequences of 1..14 Startup setter/getter calls against a model map; "
+          "non-trivial = a set followed by a clear, or SetCompress(true) on STARTUP/OPTIONS/READY, or >= 2 different accessors; distinct by (kind, version, call history)",
+     assumptions=["SetThrowOnOverload may represent 'false' by deleting its own key or storing any non-\"1\" value; only the getter and the other keys are asserted"],
+     text="Model-based stateful exploration of mutator and accessor histories with an invariant after every step.",
+     note="Trusted: the presence model (flag <=> non-empty part; COMPRESSED <=> last SetCompress(true) and opcode not STARTUP/OPTIONS/READY).",
+     technique="stateful property-based testing (rapid): model-based mutator/accessor sequences with per-step invariant", design="DESIGN.md 4 C20")
